@@ -238,6 +238,12 @@ theorem proj_inb_right {a b out : Shape} {i : List Nat} (h : broadcastShapes a b
   rw [broadcastShapes_comm] at h
   exact proj_inb_left h hi
 
+theorem bdim_self (a : Nat) : bdim a a = some a := by simp [bdim]
+
+theorem bzip_self : ∀ (s : Shape), bzip s s = some s
+  | [] => rfl
+  | a :: s => by simp [bzip, bdim_self, bzip_self s]
+
 /-! ### facts used for `LieTensor.add` -/
 
 theorem bdim_absorb {a b d : Nat} (h : bdim a b = some d) : bdim b d = some d := by
